@@ -122,6 +122,16 @@ def jdefault(o):
     return repr(o)
 
 
+def _abbrev(o, limit=600):
+    if isinstance(o, str) and len(o) > limit:
+        return o[:64] + f"...({len(o)} chars)"
+    if isinstance(o, dict):
+        return {k: _abbrev(v, limit) for k, v in o.items()}
+    if isinstance(o, (list, tuple)):
+        return [_abbrev(v, limit) for v in o]
+    return o
+
+
 def canon(obj) -> str:
     return json.dumps(obj, sort_keys=True, default=jdefault, separators=(",", ":"))
 
@@ -187,7 +197,9 @@ class Ctx:
         self.exhaustive_nontrivial += n
 
     def sample(self, case, tag=None):
-        """Keep the first case of every tag, then fill up."""
+        """Keep the first case of every tag, then fill up.  Very long strings (hex of 64 KiB messages)
+        are abbreviated in the SAMPLE only; replay files always carry the full case."""
+        case = _abbrev(case)
         if tag is not None:
             if tag in self.sample_tags:
                 return
